@@ -372,7 +372,7 @@ THOROUGH_EXTRA = {
             "collect2", "retain_n2", "retain_lite_n3", "retain_n3"],
     "C02": ["obs_set_n3", "obs_lpm_mut_n3", "obs_cover_n4", "cover_chain_n4", "remove_shape_n3"],
     "C03": ["remove_shape_n3", "whole_.*_n4", "step_iter.*_n3", "whole_keys_values_clone_n2", "proj[02]_n2"],
-    "C04": ["rmchildren_len_n3", "entry_top1_len_n2", "entry_handle0_len_n2", "retain_lite_n2", "hist2_1", "obs_set_n3", "remove_shape_n3", "insert_len_n3", "remove_len_n4", "entry_top[2-5]_len_n2", "entry_handle2_len_n2", "view_access[01]_n3", "hist2_[023]", "rebuild2",
+    "C04": ["clone_from_n2", "rmchildren_len_n3", "entry_top1_len_n2", "entry_handle0_len_n2", "retain_lite_n2", "hist2_1", "obs_set_n3", "remove_shape_n3", "insert_len_n3", "remove_len_n4", "entry_top[2-5]_len_n2", "entry_handle2_len_n2", "view_access[01]_n3", "hist2_[023]", "rebuild2",
             "retain_n2", "collect2", "obs_get_mut_n4", "whole_iter_n3"],
     "C05": ["union_init_mut_n2", "union_helper0_n2", "union_helper[12]_n[234]", "union_step[0-4]_(ro|mut)_n2", "union_whole_n2"],
     "C06": ["inter_step_mut_n2", "inter_init_(ro|mut)_n2", "inter_step_(ro|mut)_n3", "inter_helper[012]_n[23]"],
